@@ -158,6 +158,39 @@ Definition new_desc (fq help : str) (vars : list str) (consts : list lpair) : de
           else mkDesc fq help (sort_pairs consts) vars None
     end.
 
+(* ---- the same constructor when the process has switched prometheus/common to model.LegacyValidation:
+   IsValidMetricName = [a-zA-Z_:][a-zA-Z0-9_:]*, LabelName.IsValid = [a-zA-Z_][a-zA-Z0-9_]* (both read the scheme
+   on every call).  A non-ASCII or invalid byte decodes to a rune outside these classes. *)
+Definition is_alpha_us (c : Z) : bool := in_rng 97 122 c || in_rng 65 90 c || (c =? 95).
+Definition is_digit (c : Z) : bool := in_rng 48 57 c.
+Definition legacy_chars (colon : bool) (s : str) : bool :=
+  match s with
+  | [] => false
+  | c0 :: r => (is_alpha_us c0 || (colon && (c0 =? 58))) &&
+               forallb (fun c => is_alpha_us c || is_digit c || (colon && (c =? 58))) r
+  end.
+Definition legacy_metric_name_valid (n : str) : bool := legacy_chars true n.
+Definition legacy_label_name_valid (n : str) : bool := legacy_chars false n.
+Definition check_label_name_legacy (l : str) : bool := legacy_label_name_valid l && negb (has_prefix l reserved_label_prefix).
+
+Definition new_desc_legacy (fq help : str) (vars : list str) (consts : list lpair) : desc :=
+  let bad e := mkDesc fq help [] vars (Some e) in
+  if negb (legacy_metric_name_valid fq) then bad ErrMetricName
+  else if existsb (fun p => negb (check_label_name_legacy (fst p))) consts then bad ErrLabelName
+  else
+    let names := sort_strings (map fst consts) in
+    let label_values := fq :: map (fun n => lookup_str n consts) names in
+    match validate_label_values label_values (Z.of_nat (length label_values)) with
+    | Some e => bad e
+    | None =>
+        if existsb (fun l => negb (check_label_name_legacy l)) vars then bad ErrLabelName
+        else
+          let label_names := names ++ map (fun l => dollar :: l) vars in
+          let name_set := map fst consts ++ vars in
+          if negb (Z.of_nat (length label_names) =? set_size name_set) then bad ErrDuplicate
+          else mkDesc fq help (sort_pairs consts) vars None
+    end.
+
 (* ------------------------------------------------------------------ value.go MakeLabelPairs *)
 Definition make_label_pairs (d : desc) (lvs : list str) : list lpair :=
   let total := (length (d_vars d) + length (d_const d))%nat in
@@ -349,6 +382,26 @@ Fixpoint new_exemplars (exs : list (f64 * list lpair)) : res (list exemplar) :=
       end
   end.
 
+(* newExemplar / NewMetricWithExemplars under model.LegacyValidation (same control flow, legacy name check) *)
+Fixpoint ex_loop_legacy (l : list lpair) (runes : Z) (acc : list lpair) : res (Z * list lpair) :=
+  match l with
+  | [] => Ok (runes, rev acc)
+  | (name, value) :: r =>
+      if negb (check_label_name_legacy name) then Err ErrExName
+      else let runes1 := runes + rune_count name in
+           if negb (utf8_valid value) then Err ErrExValue
+           else ex_loop_legacy r (runes1 + rune_count value) ((name, value) :: acc)
+  end.
+Fixpoint new_exemplars_legacy (exs : list (f64 * list lpair)) : option err :=
+  match exs with
+  | [] => None
+  | (v, l) :: r =>
+      match ex_loop_legacy l 0 [] with
+      | Err e => Some e
+      | Ok (runes, _) => if exemplar_max_runes <? runes then Some ErrExRunes else new_exemplars_legacy r
+      end
+  end.
+
 (* ------------------------------------------------------------------ sort.Search *)
 Fixpoint go_search_loop (fuel : nat) (f : Z -> bool) (i j : Z) : Z :=
   match fuel with
@@ -447,6 +500,17 @@ Definition desc_ok_spec (fq : str) (vars : list str) (consts : list lpair) : boo
   forallb name_ok_spec (map fst consts) && forallb name_ok_spec vars &&
   nodup_b (map fst consts ++ vars) &&
   forallb utf8_valid (map snd consts).
+
+(* --- the same under model.LegacyValidation --- *)
+Definition name_ok_spec_legacy (l : str) : bool := legacy_label_name_valid l && negb (has_prefix l reserved_label_prefix).
+Definition desc_ok_spec_legacy (fq : str) (vars : list str) (consts : list lpair) : bool :=
+  legacy_metric_name_valid fq &&
+  forallb name_ok_spec_legacy (map fst consts) && forallb name_ok_spec_legacy vars &&
+  nodup_b (map fst consts ++ vars) &&
+  forallb utf8_valid (map snd consts).
+Definition exemplar_ok_spec_legacy (l : list lpair) : bool :=
+  forallb (fun p => name_ok_spec_legacy (fst p) && utf8_valid (snd p)) l &&
+  (fold_left (fun a p => a + count_starts (fst p) + count_starts (snd p)) l 0 <=? exemplar_max_runes).
 
 (* --- label pairs: strictly sorted by name and exactly the given pairs --- *)
 Fixpoint sorted_names_b (l : list lpair) : bool :=
